@@ -305,6 +305,16 @@ class Exporter:
             uniq = {repr(c): c for c in subs}
             if len(uniq) == 1:
                 return subs[0]
+            # `let tail = match body { A(a) => &a.padding, B(b) => &b.padding, .. }; out.extend(tail)`: one emission
+            # whose source is selected by the variant — the same as emitting each member inside its own arm
+            if subs and all(c[0] == "bytes" and " as " in c[1] for c in subs):
+                alts = []
+                for c in subs:
+                    scrut, rest = c[1].split(" as ", 1)
+                    variant = re.split(r"[.\[ ]", rest, 1)[0]
+                    alts.append(((scrut, variant), c))
+                if len(set(a[0][0] for a in alts)) == 1 and len(set(a[0][1] for a in alts)) == len(alts):
+                    return ("alt", alts)
             return ("unknown", "value depends on the path taken: %s" % [c[:2] for c in subs][:4])
         if k == "array":
             out = []
@@ -702,6 +712,9 @@ class Exporter:
             elif c[0] == "inline":
                 for (l2, c2, cc) in c[1]:
                     out.append((lp + tuple(l2), tuple(dict.fromkeys(cd + tuple(c2))), cc))
+            elif c[0] == "alt":
+                for (cond, sub) in c[1]:
+                    out.append((lp, tuple(dict.fromkeys(tuple(cd) + (cond,))), sub))
             elif c[0] == "seq":
                 out += self.flat([{"loop": lp, "cond": cd, "content": x} for x in c[1]])
             else:
